@@ -2,7 +2,9 @@ package main
 
 import (
 	"fmt"
+	"go/constant"
 	"go/types"
+	"strconv"
 	"strings"
 
 	"golang.org/x/tools/go/ssa"
@@ -99,6 +101,14 @@ func (g *FnGen) doCall(ci ssa.CallInstruction, v ssa.Value) {
 	}
 
 	ct := g.S.Contracts[name]
+	// a contract may be specialised on a literal first argument: extern fmt.Sprintf["%X"]
+	if len(c.Args) > 0 && !c.IsInvoke() {
+		if k, ok := c.Args[0].(*ssa.Const); ok && k.Value != nil && k.Value.Kind() == constant.String {
+			if sct := g.S.Contracts[name+"["+strconv.Quote(constant.StringVal(k.Value))+"]"]; sct != nil {
+				ct = sct
+			}
+		}
+	}
 	var callee *ssa.Function
 	if f, ok := c.Value.(*ssa.Function); ok {
 		callee = f
@@ -702,6 +712,30 @@ func (g *FnGen) assumeGlobals(guard string) {
 // Function exit: postconditions
 
 func (g *FnGen) finish() {
+	if g.C != nil && len(g.C.ReturnGhost) > 0 {
+		sig := g.fn.Signature
+		for k := range g.rets {
+			r := &g.rets[k]
+			env := map[string]Val{}
+			for n, v := range g.env {
+				env[n] = v
+			}
+			var rs []Val
+			for i := range r.results {
+				rv := r.results[i]
+				rv.Go = sig.Results().At(i).Type()
+				rs = append(rs, rv)
+			}
+			resultEnv(env, sig, rs)
+			for _, gu := range g.C.ReturnGhost {
+				key := g.ensureGhostField(gu.Field)
+				ctx := &EvalCtx{g: g, env: env, st: r.st, oldSt: g.entrySt, oldEnv: g.env, guard: r.guard}
+				arg := g.eval(gu.Arg, ctx)
+				val := g.eval(gu.Val, ctx)
+				r.st[key] = g.def("gh", g.D.heapSorts[key], store(g.D.get(r.st, key), arg.T, val.T))
+			}
+		}
+	}
 	for k, r := range g.rets {
 		g.st = r.st
 		g.checkTypeInvsAtReturn(k, r)
